@@ -450,8 +450,18 @@ func minimiseAndWrite(cfg CheckConfig, v Result) string {
 	}
 	var run Runner
 	slow := v.Viol.Kind == "child-died" || v.Viol.Kind == "hang"
+	budget := cfg.ShrinkFor
 	if slow {
-		run = SubprocRunner(cfg.Exe, cfg.Root, p, cfg.Tier, v.Seed, local, cfg.Hang)
+		// one fresh process per candidate; a reproducing hang costs the
+		// whole watchdog each time, so use a short one while minimising
+		h := cfg.Hang
+		if v.Viol.Kind == "hang" && h > 10*time.Second {
+			h = 10 * time.Second
+		}
+		if budget > 60*time.Second {
+			budget = 60 * time.Second
+		}
+		run = SubprocRunner(cfg.Exe, cfg.Root, p, cfg.Tier, v.Seed, local, h)
 	} else {
 		run = InProcRunner(p, cfg.Tier, v.Seed, local, cfg.Hang)
 	}
@@ -462,7 +472,6 @@ func minimiseAndWrite(cfg CheckConfig, v Result) string {
 		// tape directly and let the runner record what it can
 		vals = regenerate(v.Seed)
 	}
-	budget := cfg.ShrinkFor
 	best, res, tries := Shrink(run, vals, v.Viol.Property, v.Viol.Kind, budget)
 	viol := v.Viol
 	trace := v.Trace
